@@ -219,10 +219,42 @@ class Program:
         """qual: 'tad.py::Solver.prune_paths' or 'reverse_dfs.py::reverse_dfs'."""
         if qual not in self.funcs:
             raise AnalysisError("anchor function missing: %s" % qual)
+        if qual in self.PIPELINE:
+            return self.pipeline_view(qual)
         return self.funcs[qual]
 
     def has_func(self, qual):
         return qual in self.funcs
+
+    # ---- pipeline functions with their private phase helpers written back in ---------------------------------------
+    PIPELINE = {"tad.py::StochasticGame.solve", "tad.py::Solver.solve_reachability", "tad.py::Solver.solve_total_rewards",
+                "tad.py::Solver.prune_stochastich_game", "conditionalrewards.py::main"}
+    ANCHORS = {"check_game", "init_states", "count_transitions", "solve", "solve_reachability", "value_iteration_reachability", "_get_reachability_strategies",
+               "prune_reachability", "prune_stochastich_game", "prune_paths", "prune_states", "solve_total_rewards", "value_iteration_total_rewards",
+               "_get_total_rewards_strategies", "read_dict_from_file", "run_games", "save_results_to_file", "init_parser", "set_logger", "reverse_dfs"}
+
+    def pipeline_view(self, qual):
+        """The function `qual` with calls of helper methods / private module functions that are not anchors of any rule replaced
+        by the helpers' bodies (parameters bound by assignments, locals renamed, `return` turned into the assignment or return
+        of the call site).  A maintainer who splits solve() into phases leaves the same pipeline; the CFG rules look at this
+        view.  Returns the original Func when nothing can be inlined."""
+        cache = self.__dict__.setdefault("_pipeline_views", {})
+        if qual in cache:
+            return cache[qual]
+        f = self.funcs[qual]
+        try:
+            node = _inline_helpers(self, f)
+        except Exception:
+            node = None
+        if node is None:
+            cache[qual] = f
+        else:
+            add_parents(node)
+            node.parent = getattr(f.node, "parent", None)
+            v = Func(f.mod, f.cls, node)
+            v.inlined_view = True
+            cache[qual] = v
+        return cache[qual]
 
     def cls(self, name):
         if name not in self.classes:
@@ -355,6 +387,194 @@ class Program:
             return True, self.const_eval(node, mod, env)
         except NotConst:
             return False, None
+
+
+def _inline_helpers(prog, f, depth=0):
+    """New FunctionDef for f with inlinable helper calls expanded, or None if there is none."""
+    import copy as _copy
+    counter = [0]
+
+    def callee_of(call):
+        fn = call.func
+        if isinstance(fn, ast.Attribute) and isinstance(fn.value, ast.Name) and fn.value.id == "self" and f.cls is not None:
+            if fn.attr in Program.ANCHORS:
+                return None
+            for cn in prog.mro(f.cls.name):
+                m = prog.classes[cn].methods.get(fn.attr)
+                if m is not None:
+                    return m
+        if isinstance(fn, ast.Name) and fn.id.startswith("_") and fn.id in f.mod.funcs and fn.id not in Program.ANCHORS:
+            return f.mod.funcs[fn.id]
+        return None
+
+    def simple(h):
+        a = h.node.args
+        if a.vararg or a.kwarg or h.node.decorator_list:
+            return False
+        for n in ast.walk(h.node):
+            if isinstance(n, (ast.Yield, ast.YieldFrom, ast.Global, ast.Nonlocal, ast.Lambda, ast.Try, ast.With)) or (isinstance(n, ast.FunctionDef) and n is not h.node):
+                return False
+        return True
+
+    def tail_form(stmts):
+        """Rewrite `if c: A; return [E]` + rest into if/else so that every return is the last statement of its block; None if impossible."""
+        out = []
+        for i, st in enumerate(stmts):
+            if isinstance(st, ast.If):
+                body = tail_form(st.body)
+                orelse = tail_form(st.orelse) if st.orelse else []
+                if body is None or orelse is None:
+                    return None
+                b_ret = bool(body) and _ends_with_return(body)
+                o_ret = bool(orelse) and _ends_with_return(orelse)
+                rest = stmts[i + 1:]
+                if (b_ret or o_ret) and rest:
+                    rest_t = tail_form(rest)
+                    if rest_t is None:
+                        return None
+                    new = ast.If(test=st.test, body=body if b_ret else body + rest_t, orelse=(orelse if o_ret else orelse + rest_t) if (orelse or not b_ret or True) else rest_t)
+                    if b_ret and not o_ret:
+                        new.orelse = orelse + rest_t
+                    elif o_ret and not b_ret:
+                        new.body = body + rest_t
+                    else:       # both branches return: the rest is dead
+                        new.body, new.orelse = body, orelse
+                    out.append(ast.copy_location(new, st))
+                    return out
+                new = ast.If(test=st.test, body=body, orelse=orelse)
+                out.append(ast.copy_location(new, st))
+            elif isinstance(st, (ast.For, ast.While)):
+                if any(isinstance(n, ast.Return) for n in ast.walk(st)):
+                    return None
+                out.append(st)
+            elif isinstance(st, ast.Return):
+                out.append(st)
+                return out         # anything after it is dead
+            else:
+                out.append(st)
+        return out
+
+    def _ends_with_return(block):
+        last = block[-1]
+        if isinstance(last, ast.Return):
+            return True
+        if isinstance(last, ast.If) and last.orelse:
+            return _ends_with_return(last.body) and _ends_with_return(last.orelse)
+        return False
+
+    def replace_returns(block, make):
+        """Replace every (tail) return by make(value)."""
+        out = []
+        for st in block:
+            if isinstance(st, ast.Return):
+                out.extend(make(st))
+            elif isinstance(st, ast.If):
+                new = ast.If(test=st.test, body=replace_returns(st.body, make) or [ast.Pass()], orelse=replace_returns(st.orelse, make))
+                out.append(ast.copy_location(new, st))
+            else:
+                out.append(st)
+        return out
+
+    def expand(call, site_kind, targets, site):
+        h = callee_of(call)
+        if h is None or not simple(h) or h.node is f.node:
+            return None
+        counter[0] += 1
+        sfx = "__%s%d" % (h.name.strip("_"), counter[0])
+        params = [a.arg for a in h.node.args.posonlyargs + h.node.args.args]
+        is_method = h.cls is not None
+        if is_method:
+            params = params[1:]
+        if any(isinstance(a, ast.Starred) for a in call.args) or any(k.arg is None for k in call.keywords) or len(call.args) > len(params):
+            return None
+        bound = dict(zip(params, call.args))
+        for k in call.keywords:
+            if k.arg not in params:
+                return None
+            bound[k.arg] = k.value
+        for p_, d in h.defaults.items():
+            bound.setdefault(p_, d)
+        if any(p_ not in bound for p_ in params):
+            return None
+        body = [st for st in h.node.body if not (isinstance(st, ast.Expr) and isinstance(st.value, ast.Constant) and isinstance(st.value.value, str))]
+        body = tail_form(_copy.deepcopy(body))
+        if body is None:
+            return None
+        local_names = set(params)
+        for n in ast.walk(ast.Module(body=body, type_ignores=[])):
+            if isinstance(n, ast.Name) and isinstance(n.ctx, ast.Store):
+                local_names.add(n.id)
+
+        class Ren(ast.NodeTransformer):
+            def visit_Name(self, n):
+                if n.id in local_names:
+                    return ast.copy_location(ast.Name(id=n.id + sfx, ctx=n.ctx), n)
+                return n
+        body = [Ren().visit(st) for st in body]
+        pre = []
+        for p_ in params:
+            a = ast.Assign(targets=[ast.Name(id=p_ + sfx, ctx=ast.Store())], value=bound[p_])
+            pre.append(ast.copy_location(a, site))
+
+        def make(ret):
+            v = ret.value if ret.value is not None else ast.Constant(value=None)
+            if site_kind == "expr":
+                return [ast.copy_location(ast.Expr(value=v), ret)] if not isinstance(v, (ast.Constant, ast.Name)) else []
+            if site_kind == "assign":
+                return [ast.copy_location(ast.Assign(targets=_copy.deepcopy(targets), value=v), ret)]
+            return [ast.copy_location(ast.Return(value=v), ret)]
+        body = replace_returns(body, make)
+        if not _ends_with_return_or_all(body, h) and site_kind != "expr":
+            # falling off the end returns None
+            body = body + make(ast.copy_location(ast.Return(value=ast.Constant(value=None)), site))
+        out = pre + body
+        for st in out:
+            ast.fix_missing_locations(st)
+        return out
+
+    def _ends_with_return_or_all(body, h):
+        return any(isinstance(n, ast.Return) for n in ast.walk(h.node)) and True
+
+    changed = [False]
+
+    def rewrite(block, level):
+        out = []
+        for st in block:
+            call, kind, targets = None, None, None
+            if isinstance(st, ast.Expr) and isinstance(st.value, ast.Call):
+                call, kind = st.value, "expr"
+            elif isinstance(st, ast.Assign) and isinstance(st.value, ast.Call):
+                call, kind, targets = st.value, "assign", st.targets
+            elif isinstance(st, ast.Return) and isinstance(st.value, ast.Call):
+                call, kind = st.value, "return"
+            if call is not None and level < 3:
+                ex = expand(call, kind, targets, st)
+                if ex is not None:
+                    changed[0] = True
+                    out.extend(rewrite(ex, level + 1))
+                    continue
+            if isinstance(st, ast.If):
+                new = ast.If(test=st.test, body=rewrite(st.body, level), orelse=rewrite(st.orelse, level))
+                out.append(ast.copy_location(new, st))
+            elif isinstance(st, (ast.For, ast.While)):
+                new = _copy.copy(st)
+                new.body = rewrite(st.body, level)
+                out.append(new)
+            else:
+                out.append(st)
+        return out
+
+    new_body = rewrite(list(f.node.body), 0)
+    if not changed[0]:
+        return None
+    node = ast.FunctionDef(name=f.node.name, args=f.node.args, body=_copy.deepcopy(new_body), decorator_list=[], returns=None, type_comment=None)
+    if hasattr(f.node, "type_params"):
+        node.type_params = []
+    ast.copy_location(node, f.node)
+    node.end_lineno = f.node.end_lineno
+    ast.fix_missing_locations(node)
+    canonicalise(ast.Module(body=[node], type_ignores=[]))
+    return node
 
 
 # ---- generic AST helpers -----------------------------------------------------
